@@ -367,7 +367,9 @@ func genIn(r *Rng) c03In {
 	for k := 0; k < 5; k++ {
 		v := variant{Workers: Pick(r, []int{1, 2, 8}), Batch: Pick(r, []int{1, 3, 1000}), Buffer: Pick(r, []int{1, 4}),
 			Readers: Pick(r, []int{1, 3}), Gomaxprocs: Pick(r, []int{1, 4, 16})}
-		orderFree := cmd != "analyze" && cmd != "reduce" // order-insensitive accumulators only
+		// order-insensitive accumulators: the count-style aggregators and reduce with sum / count
+		// accumulators (C03_reduce_schedule_independent); analyze --extra keeps its values in arrival order
+		orderFree := cmd != "analyze"
 		if !orderFree {
 			v.Workers, v.Readers = 1, 1
 		}
@@ -385,7 +387,7 @@ func genIn(r *Rng) c03In {
 		case 1:
 			// order-sensitive commands: the same bytes on standard input in bursts, so that the 100 ms
 			// refresh computes intermediate results between batches (the final result must not depend on it)
-			if !orderFree && len(in.Files) == 1 && !in.Files[0].Gzip && r.Chance(1, 2) {
+			if (cmd == "analyze" || cmd == "reduce") && len(in.Files) == 1 && !in.Files[0].Gzip && r.Chance(1, 2) {
 				v.Stdin, v.StdinPauseMs, v.StdinBursts = true, 160, 3
 			}
 		}
